@@ -165,6 +165,16 @@ class NativeVC:
             return collections.defaultdict(default, pairs)
         return dict(pairs)
 
+    def lazy_dict(self, name, gen_value, gen_key=None, default=None, key_from_json=None):
+        """the materialised entries of the model (everything else is irrelevant to the run)"""
+        import collections
+
+        d = collections.defaultdict(default) if default is not None else {}
+        for ent in self._get(name):
+            key = key_from_json(ent["key"]) if key_from_json is not None else self._any_from_json(ent["key"])
+            d[key] = gen_value(self, f"{name}[{ent['n']}]", key)
+        return d
+
     def copy(self, v):
         import copy
 
@@ -635,6 +645,21 @@ class GenVC(NativeVC):
 
     def _ident(self, tag):
         return "Obj!val!%d" % self.rng.randrange(3)
+
+    def lazy_dict(self, name, gen_value, gen_key=None, default=None, key_from_json=None):
+        import collections
+
+        d = collections.defaultdict(default) if default is not None else {}
+        ents = []
+        if gen_key is not None:
+            for j in range(self.rng.choice([0, 1, 1, 2, 3])):
+                key = gen_key(self, f"{name}.it{j}")
+                if key in d:
+                    continue
+                d[key] = gen_value(self, f"{name}[{j}]", key)
+                ents.append({"n": j, "key": "<generated>"})
+        self.model[name] = ents
+        return d
 
     def seq(self, name, gen):
         n = self.rng.choice([0, 1, 1, 2, 3])
